@@ -12,7 +12,7 @@ From Coq Require Import List ZArith NArith Bool.
 From BBS Require Import Common.Sx Buffer.Source Buffer.Validate Buffer.Convert Buffer.ErrHandler
   Buffer.StreamProofs Buffer.ValidateProofs Buffer.ErrHandlerProofs Buffer.ClosedOnceProofs
   Buffer.ErrHandlerStackProofs Buffer.StackRuleProofs Buffer.ValidateReaderProofs Buffer.ConvertProofs
-  Buffer.EHFullCarry Buffer.EHFullReader Buffer.EHFullMethods Buffer.EHFullStack Buffer.EHFullPrefix Buffer.EHFullExact Buffer.EHFullStackExact Buffer.EHFullStacking Buffer.EHFullCompleted Buffer.EHFullPartial Buffer.EHFullTrace Buffer.EHFullRuns Buffer.EHFullMon Buffer.EHFullMon3 Buffer.EHFullMonS Run.R09 Run.R16 Run.R16Proofs.
+  Buffer.EHFullCarry Buffer.EHFullReader Buffer.EHFullMethods Buffer.EHFullStack Buffer.EHFullPrefix Buffer.EHFullExact Buffer.EHFullStackExact Buffer.EHFullStacking Buffer.EHFullCompleted Buffer.EHFullPartial Buffer.EHFullTrace Buffer.EHFullRuns Buffer.EHFullRetry Buffer.EHFullMon Buffer.EHFullMon3 Buffer.EHFullMonS Buffer.EHFullMonR Run.R09 Run.R16 Run.R16Proofs.
 Import ListNotations.
 Open Scope N_scope.
 
@@ -533,6 +533,31 @@ Theorem monitor_silent_on_model_streaming_partial : forall inp, dom16s inp -> mo
 Proof. exact mon16_silent_on_model_streaming. Qed.
 Print Assumptions monitor_silent_on_model_streaming_partial.
 
+(** Whole-operation retries on a stack (ToByteSlice, ReadAt, CloneCopy through
+    nested tryRepeatedly), Buffer/EHFullRetry.v, EHFullMonR.v: if the call
+    completes, the buffer it completed on is the one [buffer_in_use] computes from
+    the scripts and the number of offers each level received ([biu]), its
+    content ends with io.EOF and is valid (byte slices: if trusted), and the
+    consumer holds its expected slice; and the error the outermost handler
+    returned last is the consumer's result. *)
+Theorem whole_operation_retries_on_a_stack : forall H cfg fuel b0 anss m,
+  retrying m -> anss <> [] -> y_err (run_stack H cfg fuel b0 anss m) <> EFuel ->
+  retry_facts H cfg b0 anss m (run_stack H cfg fuel b0 anss m).
+Proof. exact run_stack_retry_facts. Qed.
+Print Assumptions whole_operation_retries_on_a_stack.
+
+(** THE MONITOR IS SILENT ON THE MODEL, every method, every clause:
+    [mon16 inp (run16 inp) = []] for every input of [dom16all]
+    (Buffer/EHFullMonR.v): at least one handler; well-formed buffers (readers
+    that attach EOF to data have scripts of chunks and at most one final Eof
+    event); parameters the method accepts ([bad_param] = false); the model did
+    not run out of fuel (no EFuel as the result or offered to a handler); a
+    positive final error code.  The unconditional statement is false:
+    [clause1_needs_a_handler], [stitching_clauses_fire_outside_the_domain]. *)
+Theorem monitor_silent_on_model_partial : forall inp, dom16all inp -> mon16 inp (run16 inp) = [].
+Proof. exact mon16_silent_on_model. Qed.
+Print Assumptions monitor_silent_on_model_partial.
+
 (** Non-vacuity: the original fails after one byte, the replacement is opened
     at offset 1; the consumer gets 1,2,3 once each, validation succeeds, the
     error 14 is offered once and Done is reported once. *)
@@ -667,3 +692,24 @@ Example c16_stitch_stack_instance :
       [[HOnError (ECode 14); HDone]; [HOnError (ECode 7); HOnError (ECode 15); HDone]; [HOnError (ECode 8); HDone]]
       [1%nat; 1%nat] [].
 Proof. vm_compute. auto. Qed.
+
+(** Non-vacuity of [monitor_silent_on_model_partial]: an input that meets
+    [dom16all] (two stacked handlers; the inner one gives up, the outer one
+    replaces; ToChunkReader at offset 1 in chunks of 1). *)
+Example dom16all_instance :
+  let inp := L [A 1; L [A 3; L [A 9; A 9]; A 3];
+                L [A 0; L [L [A 0; L [A 1]]; L [A 1; A 14]; L [A 0; L [A 7]]]];
+                L [L [L [A 1; A 7]]; L [L [A 0; L [A 1; A 0; L [L [A 0; L [A 1; A 2]]; L [A 0; L [A 3]]; L [A 2]]]]]];
+                L [A 3; A 1; A 1; A 0]; L [L [L [A 1; A 2; A 3]; L [A 9; A 9]]]] in
+  dom16all inp /\
+  run16 inp = L [L [A 2; A 3]; A (-1); L []; L [A 1]; L [L [A 14]; L [A 7]]; L [A 1; A 1]; L []; L [A 1; A 1]].
+Proof.
+  cbv zeta. split; [|vm_compute; reflexivity].
+  unfold dom16all, dom16. rsplit.
+  - vm_compute. discriminate.
+  - vm_compute. split; [exact I|]. repeat constructor.
+  - vm_compute. repeat constructor; intros Hin; repeat (destruct Hin as [Hin|Hin]; try discriminate); exact Hin.
+  - vm_compute. intros x Hx. discriminate.
+  - vm_compute. discriminate.
+  - vm_compute. reflexivity.
+Qed.
